@@ -146,6 +146,21 @@ class C08(Prop):
                                 % (cargs, ckw, args, kwds), method=case['method'])
         return val, info
 
+    def _noise_scale(self, nd, case, xi):
+        """(k_est, 1e3*eps*sup|f|*sum|rule|/h_min^n): what last-bit differences can be amplified to."""
+        g = base_function(case['template'], case['coefs'], case['d'])
+        d = self._derivative(nd, case, g)
+        gen = d.step.step_generator_function(np.asarray(xi), d.method, d.n, d.method_order)
+        hs = [abs(float(h)) for h in gen()]
+        rule = np.atleast_1d(d.fd_rule.rule(gen.step_ratio))
+        k_est = len(hs) - rule.size + 1
+        hmax, hmin = max(hs), min(hs)
+        with np.errstate(all='ignore'):
+            sup = max(abs(complex(g(xi + hmax * np.exp(1j * t)))) for t in np.linspace(0, 2 * np.pi, 16,
+                                                                                       endpoint=False))
+        amp = max(abs(float(np.ravel(case['a'])[0])) if case['a_kind'] != 'none' else 1.0, 1.0) * 2.0
+        return k_est, 1e3 * EPS * sup * amp * float(np.sum(np.abs(rule))) / hmin ** case['n']
+
     def check(self, case, ctx):
         import numdifftools as nd
         shape = tuple(case['shape'])
@@ -193,8 +208,14 @@ class C08(Prop):
         else:
             tol = abs(f1[1]) + abs(float(np.ravel(infos.error_estimate)[0])) + 4 * EPS * abs(u)
             if not (abs(u - w) <= tol or (np.isnan(u) and np.isnan(w))):
+                # classify: is the difference explained by last-bit differences of complex arithmetic
+                # amplified by 1/h^n (then it is the dishonest single-estimate error of finding F10),
+                # or is it a gross scalar-vs-array disagreement?
+                k_est, noise = self._noise_scale(nd, case, xi)
                 raise Violation('scalar-vs-array', 'element %d: %r in the array call, %r as a scalar, '
-                                'difference above the error estimate %g' % (i, u, w, tol), method=method)
+                                'difference above the error estimate %g (k_est=%d, rounding-noise scale '
+                                '%.3g)' % (i, u, w, tol, k_est, noise), method=method, k_est=k_est,
+                                noise_explained=bool(abs(u - w) <= noise))
         if x.size >= 2:
             ncol = x.size
             r1 = np.ravel(info1.index) // ncol
@@ -208,7 +229,8 @@ class C08(Prop):
 
     def finding_key(self, case, v):
         return {'clause': v.clause, 'method': case['method'], 'n': case['n'],
-                'exception': v.details.get('exception'), 'field': v.details.get('field')}
+                'exception': v.details.get('exception'), 'field': v.details.get('field'),
+                'k_est': v.details.get('k_est'), 'noise_explained': v.details.get('noise_explained')}
 
 
 PROP = C08()
